@@ -313,7 +313,7 @@ func TestRandomValues(t *testing.T) {
 	rec := ev.New(t, prop, "injected-random-values", "rapid: random 32-byte values with a random number of leading zero bytes and small/large leading byte, random 4-letter prefix (1 in 8 invalid), injected through crypto/rand.Reader; non-trivial: body needs left padding")
 	letters := []rune("abcdefghijklmnopqrstuvwxyz")
 	junk := []rune("abcxyzABZ019_-é \x00")
-	ev.Check(t, rec, 30000, 600000, func(rt *rapid.T) {
+	ev.Check(t, rec, 30000, 2000000, func(rt *rapid.T) {
 		value := make([]byte, valueLength)
 		k := 0
 		if rapid.Bool().Draw(rt, "structured") {
@@ -370,7 +370,7 @@ func TestRealReader(t *testing.T) {
 		t.Skip("replaying")
 	}
 	rec := ev.New(t, prop, "real-random-source", "identifier.New with the real crypto/rand.Reader: format, validation, truncation, body < 2^256, pairwise distinct; non-trivial: the body starts with a padding zero")
-	n := ev.Pick(100000, 500000)
+	n := ev.Pick(100000, 2000000)
 	seen := make(map[string]struct{}, n)
 	for i := 0; i < n; i++ {
 		prefix := validPrefixes[i%4]
@@ -464,7 +464,7 @@ func TestIdentifierStrings(t *testing.T) {
 		t.Skip("replaying")
 	}
 	rec := ev.New(t, prop, "validation-and-truncation", "rapid: identifier- and legacy-UUID-shaped strings with 0-2 edits (insert/delete/replace by separators, non-base-62, non-ASCII, newline; upper-casing); IsValid and Truncated against the documented formats; non-trivial: the string is a valid identifier")
-	ev.Check(t, rec, 30000, 400000, func(rt *rapid.T) {
+	ev.Check(t, rec, 30000, 1500000, func(rt *rapid.T) {
 		s := spoil(rt, genIdentifierShaped(rt))
 		c := &Case{Kind: "string", Str: []byte(s), Text: fmt.Sprintf("%q", s)}
 		v, nt := judgeString(c)
@@ -548,7 +548,7 @@ func TestNames(t *testing.T) {
 		t.Skip("replaying")
 	}
 	rec := ev.New(t, prop, "session-names", "rapid: names from letters of several scripts, ASCII and non-ASCII numbers, dashes, forbidden characters, reserved words, identifier-shaped strings and UUIDs in every uuid.Parse syntax and case, with small edits; non-trivial: the name is identifier-shaped, a dashed UUID or the reserved word")
-	ev.Check(t, rec, 40000, 600000, func(rt *rapid.T) {
+	ev.Check(t, rec, 40000, 2000000, func(rt *rapid.T) {
 		name := genName(rt)
 		c := &Case{Kind: "name", Str: []byte(name), Text: fmt.Sprintf("%q", name)}
 		v, nt, class := judgeName(c)
@@ -576,7 +576,7 @@ func TestBase62(t *testing.T) {
 		t.Skip("replaying")
 	}
 	rec := ev.New(t, prop, "base62-round-trip", "rapid: byte strings of length 0..40 with a random number of leading zero bytes; EncodeBase62 output uses only the alphabet, has the value's numeral as its numeric reading, is never longer than 43 digits for 32 bytes, and DecodeBase62 returns the input; non-trivial: at least one leading zero byte")
-	ev.Check(t, rec, 30000, 400000, func(rt *rapid.T) {
+	ev.Check(t, rec, 30000, 1500000, func(rt *rapid.T) {
 		n := rapid.IntRange(0, 40).Draw(rt, "len")
 		if rapid.Bool().Draw(rt, "exactly32") {
 			n = valueLength
